@@ -2917,8 +2917,11 @@ def eye(N: int, M: int | None = None, k: int = 0,  # noqa: N803
     if not isinstance(k, INT_CLASSES):
         raise ValueError(f"k must be int, got {type(k)}.")
 
-    return IndexLambda(expr=prim.If(parse(f"(_1 - _0) == {k}"), 1, 0),
-                       shape=(N, M), dtype=np.dtype(dtype),
+    dtype = np.dtype(dtype)
+
+    return IndexLambda(expr=prim.If(parse(f"(_1 - _0) == {k}"),
+                                    dtype.type(1), dtype.type(0)),
+                       shape=(N, M), dtype=dtype,
                        bindings=constantdict({}),
                        tags=_get_default_tags(),
                        non_equality_tags=_get_created_at_tag(),
